@@ -80,7 +80,34 @@ PNODE = Family(
 FAMILIES.append(PNODE)
 
 
+def _os_path_join(V, st, self_val, args, kwargs, node):
+    """os.path.join(a, b) on POSIX: b wins if absolute; a separator is inserted unless a is empty or ends in one"""
+    import z3
+    from pyvc.values import SV, pack
+    a = pack(args[0], STR) if args[0].t == STR else args[0].z
+    cur = a
+    for b in args[1:]:
+        bz = b.z
+        sep = z3.StringVal('/')
+        cur = z3.If(z3.PrefixOf(sep, bz), bz,
+                    z3.If(z3.Or(cur == z3.StringVal(''), z3.SuffixOf(sep, cur)), z3.Concat(cur, bz),
+                          z3.Concat(cur, sep, bz)))
+    return SV(STR, cur)
+
+
+def os_ns():
+    import z3
+    from pyvc.values import SV, MFn
+    return MNS('os', {'path': MNS('os.path', {
+        'sep': SV(STR, z3.StringVal('/')),
+        'join': MFn('spec', 'os.path.join', spec=FnSpec('os.path.join', impl=_os_path_join, assumed=True)),
+        'dirname': MFn('spec', 'os.path.dirname', spec=FnSpec('os.path.dirname', params=[('p', PATH)], ret=PATH,
+                                                              pure=True, assumed=True)),
+    })})
+
+
 def register(reg):
+    reg.names['os'] = os_ns()
     reg.names['settings'] = settings_ns()
     reg.add_exception('RefactoringError', ('Exception',))
     reg.add_exception('InternalError', ('Exception',))
